@@ -44,7 +44,8 @@ class ClangBinarySearchPass(AbstractPass):
         return state.advance()
 
     def advance_on_success(self, test_case, state):
-        instances = state.real_num_instances - state.real_chunk()
+        # the tool clamps a range that exceeds what it holds: never continue with a negative count
+        instances = max(state.real_num_instances - state.real_chunk(), 0)
         state = state.advance_on_success(instances)
         if state:
             state.real_num_instances = None
